@@ -111,16 +111,59 @@ func init() {
 			if err != nil {
 				return c19ErrName(err)
 			}
+			// the header and the annexb form are held while both builders are used for another stream and the
+			// parameter-set buffers are overwritten
+			ab := avc.BuildSpsPps2Annexb(sps, pps)
+			s2, p2 := c19Other(sps), c19Other(pps)
+			h2, _ := avc.BuildSeqHeaderFromSpsPps(s2, p2)
+			c19Scribble(h2)
+			c19Scribble(avc.BuildSpsPps2Annexb(s2, p2))
+			c19Scribble(sps)
+			c19Scribble(pps)
+			hs := tokBytes(h)
 			p := c19Safe(func() string { return pair(avc.ParseSpsPpsFromSeqHeader(h)) })
 			x := c19Safe(func() string { return one(h2645.SeqHeader2Annexb(true, h)) })
-			return fmt.Sprintf("ok %s | %s | %s | %s", tokBytes(h), p, x, tokBytes(avc.BuildSpsPps2Annexb(sps, pps)))
+			return fmt.Sprintf("ok %s | %s | %s | %s", hs, p, x, tokBytes(ab))
 		})
 	})
+	// The converters document their results as independently allocated: every op below keeps the first result while
+	// the function converts another header of the same shape, overwrites both inputs and the later results, and only
+	// then prints (c19Other / c19Scribble in c19_multi.go).
 	register("c19.avc_parse", func(a []string) string {
-		return c19Safe(func() string { return pair(avc.ParseSpsPpsFromSeqHeader(bytesTok(a[0]))) })
+		return c19Safe(func() string {
+			in := bytesTok(a[0])
+			sps, pps, err := avc.ParseSpsPpsFromSeqHeader(in)
+			in2 := c19Other(in)
+			s2, p2, _ := avc.ParseSpsPpsFromSeqHeader(in2)
+			c19Scribble(s2)
+			c19Scribble(p2)
+			c19Scribble(in)
+			c19Scribble(in2)
+			return pair(sps, pps, err)
+		})
 	})
+	held1 := func(f func([]byte) ([]byte, error), in []byte) ([]byte, error) {
+		r, err := f(in)
+		in2 := c19Other(in)
+		r2, _ := f(in2)
+		c19Scribble(r2)
+		c19Scribble(in)
+		c19Scribble(in2)
+		return r, err
+	}
+	held3 := func(f func([]byte) ([]byte, []byte, []byte, error), in []byte) ([]byte, []byte, []byte, error) {
+		v, s, p, err := f(in)
+		in2 := c19Other(in)
+		v2, s2, p2, _ := f(in2)
+		c19Scribble(v2)
+		c19Scribble(s2)
+		c19Scribble(p2)
+		c19Scribble(in)
+		c19Scribble(in2)
+		return v, s, p, err
+	}
 	register("c19.avc_2annexb", func(a []string) string {
-		return c19Safe(func() string { return one(avc.SpsPpsSeqHeader2Annexb(bytesTok(a[0]))) })
+		return c19Safe(func() string { return one(held1(avc.SpsPpsSeqHeader2Annexb, bytesTok(a[0]))) })
 	})
 	register("c19.hevc_vps", func(a []string) string {
 		return c19Safe(func() string {
@@ -142,22 +185,28 @@ func init() {
 	})
 	register("c19.hevc_rt", func(a []string) string {
 		return c19Safe(func() string {
-			h, err := hevc.BuildSeqHeaderFromVpsSpsPps(bytesTok(a[0]), bytesTok(a[1]), bytesTok(a[2]))
+			vps, sps, pps := bytesTok(a[0]), bytesTok(a[1]), bytesTok(a[2])
+			h, err := hevc.BuildSeqHeaderFromVpsSpsPps(vps, sps, pps)
 			if err != nil {
 				return c19ErrName(err)
 			}
+			h2, _ := hevc.BuildSeqHeaderFromVpsSpsPps(c19Other(vps), c19Other(sps), c19Other(pps))
+			c19Scribble(h2)
+			c19Scribble(vps)
+			c19Scribble(sps)
+			c19Scribble(pps)
 			p := c19Safe(func() string { return three(hevc.ParseVpsSpsPpsFromSeqHeader(h)) })
 			x := c19Safe(func() string { return one(h2645.SeqHeader2Annexb(false, h)) })
 			return fmt.Sprintf("ok %s | %s | %s", tokBytes(h), p, x)
 		})
 	})
 	register("c19.hevc_parse", func(a []string) string {
-		return c19Safe(func() string { return three(hevc.ParseVpsSpsPpsFromSeqHeader(bytesTok(a[0]))) })
+		return c19Safe(func() string { return three(held3(hevc.ParseVpsSpsPpsFromSeqHeader, bytesTok(a[0]))) })
 	})
 	register("c19.hevc_parse_enh", func(a []string) string {
 		return c19Safe(func() string { return three(hevc.ParseVpsSpsPpsFromEnhancedSeqHeader(bytesTok(a[0]))) })
 	})
 	register("c19.hevc_2annexb", func(a []string) string {
-		return c19Safe(func() string { return one(hevc.VpsSpsPpsSeqHeader2Annexb(bytesTok(a[0]))) })
+		return c19Safe(func() string { return one(held1(hevc.VpsSpsPpsSeqHeader2Annexb, bytesTok(a[0]))) })
 	})
 }
